@@ -58,6 +58,7 @@ Judge(r) ==
   IN f(r.overlap \/ r.stuck \/ r.fault # "" \/ (~isBeh /\ ~CommonOrder(r.probes)), "C10")
      \o f(~r.stuck /\ r.fault = "" /\ ~Delivery(r, C), "C06")
      \o f(r.late, "C02")
+     \o f(r.late \/ r.stuck \/ r.fault # "", "C19")      \* a cancelled task's body (or what it subscribed) acts after unsubscribe() returned
      \o f(r.cnt[CntFin] # 1, "C15")
      \o f("F14" \notin KF /\ ~BehaviorOK(r.probes), "C12")
      \o f(r.stuck, "C14")
